@@ -1,8 +1,11 @@
 (* Theorem (a) for the whole-file EDIF reader model: whatever s-expression (or token list, or text) is
    given, a result that is returned is well formed ([wf_core]): references resolve inside the result,
    every pin on a wire exists, no pin is on two wires, sibling identifiers are distinct
-   case-insensitively, the top instance references a cell of the result. Termination of the model is
-   by construction (structural recursion on the children lists; no fuel anywhere). *)
+   case-insensitively, the top instance references a cell of the result; and fully well formed
+   ([wf_file]): every instance has a reference, every port at least one pin. The token-level entry
+   accepts exactly one balanced form: appended tokens and every proper prefix of an accepted file are
+   refused ([elab_tokens_trailing], [elab_tokens_truncated]). Termination of the model is by
+   construction (structural recursion on the children lists; no fuel anywhere). *)
 From Coq Require Import String.
 From Coq Require Import List NArith ZArith Bool Arith Lia Permutation.
 From SV Require Import Base.Base Fmt.EdifLex Fmt.EdifName Fmt.EdifCable Fmt.EdifBus Fmt.EdifNets Fmt.EdifFile Fmt.EdifFileSpec
@@ -466,77 +469,99 @@ Proof.
     exists C'. split; auto. apply lookup_cell_in; auto.
 Qed.
 
-Lemma parse_design_ok libs args t : libs_good libs -> parse_design libs args = Ok t ->
-  exists D, lookup_cell libs (tp_lib (fst t)) (tp_cell (fst t)) = Some D.
+(* the cell named by the design construct, as membership (stable when libraries are added later) *)
+Definition top_in (libs : list nvlib) (t : nvtop) : Prop :=
+  exists L C, In L libs /\ In C (li_cells L) /\ tp_lib t = li_ident L /\ tp_cell t = ce_ident C.
+
+Lemma parse_design_ok libs args t : parse_design libs args = Ok t -> top_in libs t.
 Proof.
-  intros HF H. unfold parse_design in H.
+  intro H. unfold parse_design in H.
   destruct args as [|nd [|x ?]]; try discriminate.
-  destruct x as [| |[|[?|?|?] [|[x|?|?] [|[?|?|[|[?|?|?] [|[y|?|?] junk]]] more]]]]; try discriminate.
-  destruct (parse_design_name nd) as [n|]; [|discriminate].
-  destruct (_ || _); [discriminate|].
+  destruct x as [| |[|k1 [|cr [|[| |[|k2 [|lr [|]]]] [|]]]]]; try discriminate.
+  destruct (parse_elemname nd) as [n|]; [|discriminate].
+  destruct (negb (is_kw "cellref" k1)); [discriminate|].
+  destruct (parse_nameref cr) as [x|]; [|discriminate].
+  destruct (negb (is_kw "libraryref" k2)); [discriminate|].
+  destruct (parse_nameref lr) as [y|]; [|discriminate].
   unfold find_lib, find_cell in H.
   destruct (find _ libs) as [L|] eqn:FL; [|discriminate].
   destruct (find _ (li_cells L)) as [C|] eqn:FC; [|discriminate].
-  destruct more as [|[?|?|?] ?]; try discriminate. inversion H; subst; cbn.
+  inversion H; subst; cbn.
   apply find_some in FL as [HL _]. apply find_some in FC as [HC _].
-  exists C. apply lookup_cell_in; auto.
+  exists L, C. auto.
+Qed.
+
+Lemma top_in_app libs more t : top_in libs t -> top_in (libs ++ more) t.
+Proof. intros (L & C & HL & HC & E1 & E2). exists L, C. repeat split; auto. apply in_or_app. now left. Qed.
+
+Lemma top_in_lookup libs t : libs_good libs -> top_in libs t ->
+  exists D, lookup_cell libs (tp_lib t) (tp_cell t) = Some D.
+Proof.
+  intros HF (L & C & HL & HC & -> & ->). exists C. apply lookup_cell_in; auto.
   - apply distinct_ci_nodup. apply HF.
   - apply distinct_ci_nodup. eapply libs_good_cells; eauto.
 Qed.
 
-Lemma body_ok l : forall libs st cnt r, libs_good libs -> body libs st cnt l = Ok r ->
-  libs_good (fst r) /\ forall t, snd r = Some t -> exists D, lookup_cell (fst r) (tp_lib (fst t)) (tp_cell (fst t)) = Some D.
+Definition body_good (s : bst) : Prop :=
+  libs_good (bs_libs s) /\ forall t, bs_top s = Some t -> top_in (bs_libs s) t.
+
+Lemma body_step_ok s k a s' : body_good s -> body_step s k a = Ok s' -> body_good s'.
 Proof.
-  induction l as [|x l IH]; intros libs st cnt r HF H; cbn in H.
-  - inversion H; subst; cbn. split; auto. discriminate.
-  - destruct x as [?|?|[|[a|?|?] args]]; try discriminate.
-    destruct (kweq (lower a) "status").
-    { destruct st; [discriminate|]. destruct (chk_status args); [|discriminate]. eapply IH; eauto. }
-    destruct (_ || _).
-    { destruct (parse_library libs args) as [L|] eqn:PL; [|discriminate].
-      apply parse_library_ok in PL as [P1 P2]. eapply IH; [|exact H]. now apply libs_good_snoc. }
-    destruct (kweq (lower a) "design").
-    { destruct (parse_design libs args) as [t|] eqn:PD; [|discriminate]. inversion H; subst; cbn. split; auto.
-      intros t' Ht. inversion Ht; subst; cbn. eapply parse_design_ok; eauto. }
-    destruct (kweq (lower a) "comment").
-    { destruct (chk_comment args); [|discriminate]. eapply IH; eauto. }
-    destruct (kweq (lower a) "userdata"); discriminate.
+  intros [HF HT] H. unfold body_step in H.
+  destruct (kweq k "status").
+  { destruct (bs_status s); [discriminate|]. destruct (chk_status a); [|discriminate]. inversion H; subst. split; auto. }
+  destruct (_ || _).
+  { destruct (parse_library (bs_libs s) a) as [L|] eqn:PL; [|discriminate]. inversion H; subst; cbn.
+    apply parse_library_ok in PL as [P1 P2]. split; [now apply libs_good_snoc|].
+    intros t Ht. apply top_in_app. auto. }
+  destruct (kweq k "design").
+  { destruct (bs_top s); [discriminate|].
+    destruct (parse_design (bs_libs s) a) as [t|] eqn:PD; [|discriminate]. inversion H; subst; cbn. split; auto.
+    intros t' Ht. inversion Ht; subst. eapply parse_design_ok; eauto. }
+  destruct (kweq k "comment").
+  { destruct (chk_comment a); [|discriminate]. inversion H; subst. split; auto. }
+  destruct (kweq k "userdata"); discriminate.
 Qed.
 
-Theorem elab_file_ext_wf d r : elab_file_ext d = Ok r -> wf_core (fst r).
+Lemma body_ok l r : body l = Ok r -> body_good r.
 Proof.
-  unfold elab_file_ext. intro H. destruct (negb (atoms_ascii d)); [discriminate|].
-  destruct d as [| |[|e [|nd [|ver [|lvl [|km items]]]]]]; try discriminate.
-  destruct (negb _); [discriminate|]. destruct (parse_elemname nd) as [n|]; [|discriminate].
-  destruct (chk_int_form _ _ ver); [|discriminate]. destruct (chk_int_form _ _ lvl); [|discriminate].
-  destruct (chk_keywordmap km); [|discriminate].
-  destruct (body [] false _ items) as [b|] eqn:B; [|discriminate]. inversion H; subst; cbn.
-  apply body_ok in B as [B1 B2]; [|apply libs_good_nil].
-  constructor; cbn.
-  - apply B1.
-  - intros L HL. eapply libs_good_cells; eauto.
-  - intros L C HL HC. eapply libs_good_wf; eauto.
-  - intros t Ht. destruct (snd b) as [tk|]; [|discriminate]. inversion Ht; subst. apply (B2 tk eq_refl).
+  unfold body. intro H.
+  refine (loop_inv body_step false body_good _ l _ r _ H).
+  - intros. eapply body_step_ok; eauto.
+  - split; [apply libs_good_nil|]. discriminate.
 Qed.
 
 Theorem elab_file_wf_core d n : elab_file d = Ok n -> wf_core n.
 Proof.
-  unfold elab_file. destruct (elab_file_ext d) as [r|] eqn:E; [|discriminate]. intro H; inversion H; subst.
-  eapply elab_file_ext_wf; eauto.
+  unfold elab_file. intro H. destruct (negb (atoms_ascii d)); [discriminate|].
+  destruct d as [| |[|e [|nd [|ver [|lvl [|km items]]]]]]; try discriminate.
+  destruct (negb _); [discriminate|]. destruct (parse_elemname nd) as [n0|]; [|discriminate].
+  destruct (chk_int_form _ _ ver); [|discriminate]. destruct (chk_int_form _ _ lvl); [|discriminate].
+  destruct (chk_keywordmap km); [|discriminate].
+  destruct (body items) as [b|] eqn:B; [|discriminate]. inversion H; subst; cbn.
+  apply body_ok in B as [B1 B2].
+  constructor; cbn.
+  - apply B1.
+  - intros L HL. eapply libs_good_cells; eauto.
+  - intros L C HL HC. eapply libs_good_wf; eauto.
+  - intros t Ht. apply top_in_lookup; auto.
+Qed.
+
+Lemma elab_tokens_file toks n : elab_tokens toks = Ok n ->
+  exists d, read_first toks = Some (d, O, []) /\ elab_file d = Ok n.
+Proof.
+  unfold elab_tokens. destruct (read_first toks) as [[[d m] rest]|]; [|discriminate].
+  destruct (elab_file d) as [r|] eqn:E; [|discriminate].
+  destruct m as [|m]; cbn; [|discriminate]. destruct rest; [|discriminate]. intro H; inversion H; subst. eauto.
 Qed.
 
 Theorem elab_tokens_wf_core toks n : elab_tokens toks = Ok n -> wf_core n.
-Proof.
-  unfold elab_tokens. destruct (read_first toks) as [[d m]|]; [|discriminate].
-  destruct (elab_file_ext d) as [r|] eqn:E; [|discriminate]. intro H.
-  assert (n = fst r) as ->. { destruct (snd r); [destruct (_ <=? _)|destruct (Nat.eqb _ _)]; inversion H; auto. }
-  eapply elab_file_ext_wf; eauto.
-Qed.
+Proof. intro H. apply elab_tokens_file in H as (d & _ & H). eapply elab_file_wf_core; eauto. Qed.
 
 Theorem elab_text_wf_core s n : elab_text s = Ok n -> wf_core n.
 Proof. apply elab_tokens_wf_core. Qed.
 
-(* with every instance carrying its viewRef the result is fully well formed *)
+(* ---- every instance is referenced, every port has a pin ---- *)
 Lemma all_referencedb_spec n : all_referencedb n = true -> all_referenced n.
 Proof.
   unfold all_referencedb, all_referenced. intros H L C I HL HC HI.
@@ -544,5 +569,215 @@ Proof.
   rewrite forallb_forall in H. specialize (H I HI). destruct (in_ref I); [discriminate|discriminate].
 Qed.
 
-Theorem elab_file_wf d n : elab_file d = Ok n -> all_referencedb n = true -> wf_file n.
-Proof. intros H1 H2. split; [eapply elab_file_wf_core; eauto|now apply all_referencedb_spec]. Qed.
+Definition port_ne (P : nvport) : Prop := (1 <= po_width P)%N.
+Definition einst_refd (ip : einst) : Prop := in_ref (fst ip) <> None.
+Definition cell_full (C : nvcell) : Prop :=
+  Forall port_ne (ce_ports C) /\ Forall (fun I => in_ref I <> None) (ce_insts C).
+
+Lemma parse_port_ne ports args p : parse_port ports args = Ok p -> port_ne p.
+Proof.
+  unfold parse_port. intro H. destruct args as [|nd rest]; [discriminate|].
+  destruct (parse_port_head nd) as [h|] eqn:Hh; [|discriminate].
+  destruct (loop port_step false (false, 0%N) rest) as [hd|]; [|discriminate].
+  destruct (place_strict _ _ _) as [u|]; [|discriminate]. inversion H; subst; unfold port_ne; cbn. clear H.
+  unfold parse_port_head in Hh. destruct nd as [tk|s|[|k l]]; try discriminate.
+  - destruct (parse_elemname (Atom tk)); [|discriminate]. inversion Hh; subst; cbn. lia.
+  - destruct (is_kw "rename" k).
+    + destruct (parse_rename (k :: l)); [|discriminate]. destruct (legal _); [|discriminate]. inversion Hh; subst; cbn. lia.
+    + destruct (is_kw "array" k); [|discriminate].
+      destruct l as [|nd' [|[tz| |] [|]]]; try discriminate.
+      destruct (parse_elemname nd'); [|discriminate]. destruct (int_tok tz) as [z|]; [|discriminate].
+      destruct (max_bits <? z)%Z; [discriminate|]. destruct (z <? 1)%Z eqn:Ez; [discriminate|].
+      inversion Hh; subst; cbn. apply Z.ltb_ge in Ez. lia.
+Qed.
+
+Lemma parse_interface_ne x ports : parse_interface x = Ok ports -> Forall port_ne ports.
+Proof.
+  unfold parse_interface. intro H. destruct x as [| |[|k items]]; try discriminate.
+  destruct (is_kw "interface" k); [|discriminate].
+  destruct (loop interface_step false ([], false) items) as [r|] eqn:L; [|discriminate].
+  inversion H; subst.
+  refine (loop_inv interface_step false (fun s => Forall port_ne (fst s)) _ items ([], false) r _ L); [|constructor].
+  intros s k' a s' Hs Hst. unfold interface_step in Hst.
+  destruct (kweq k' "port").
+  { destruct (parse_port (fst s) a) as [p|] eqn:PP; [|discriminate]. inversion Hst; subst; cbn.
+    apply Forall_app. split; auto. constructor; [|constructor]. eapply parse_port_ne; eauto. }
+  inv_res Hst; inversion Hst; subst; cbn; auto.
+Qed.
+
+Lemma parse_instance_refd cx insts args ip : parse_instance cx insts args = Ok ip -> einst_refd ip.
+Proof.
+  unfold parse_instance. intro H. destruct args as [|nd rest]; [discriminate|].
+  destruct (parse_elemname nd) as [n|]; [|discriminate].
+  match type of H with (match ?X with _ => _ end) = _ => destruct X as [r|] eqn:R; [|discriminate] end.
+  destruct (loop inst_step false [] (snd r)); [|discriminate].
+  destruct (place _ _ n); [|discriminate]. inversion H; subst; unfold einst_refd; cbn. clear H.
+  destruct rest as [|x rest']; [discriminate|].
+  destruct x as [?|?|[|[k|?|?] vargs]]; try discriminate.
+  destruct (kweq (lower k) "viewref"); [|destruct (kweq (lower k) "viewlist"); discriminate].
+  destruct (parse_viewref cx vargs) as [v|]; [|discriminate]. inversion R; subst; cbn. discriminate.
+Qed.
+
+Lemma contents_refd cx cargs c : loop (contents_step cx) false (mkcst [] []) cargs = Ok c -> Forall einst_refd (cs_insts c).
+Proof.
+  intro L.
+  refine (loop_inv (contents_step cx) false (fun s => Forall einst_refd (cs_insts s)) _ cargs (mkcst [] []) c _ L); [|constructor].
+  intros s k a s' Hs Hst. unfold contents_step in Hst.
+  destruct (kweq k "instance").
+  { destruct (parse_instance cx (cs_insts s) a) as [ip|] eqn:PI; [|discriminate]. inversion Hst; subst; cbn.
+    apply Forall_app. split; auto. constructor; [|constructor]. eapply parse_instance_refd; eauto. }
+  destruct (kweq k "net").
+  { destruct (parse_net cx (cs_insts s) (cs_cabs s) a); [|discriminate]. inversion Hst; subst; cbn. auto. }
+  inv_res Hst; inversion Hst; subst; auto.
+Qed.
+
+Lemma parse_view_full libs lib cells cell args v : parse_view libs lib cells cell args = Ok v ->
+  Forall port_ne (snd (fst v)) /\ Forall einst_refd (cs_insts (snd v)).
+Proof.
+  unfold parse_view. intro H. destruct args as [|nd [|vt [|itf rest]]]; try discriminate.
+  destruct (parse_namedef nd) as [n|]; [|discriminate]. destruct (chk_viewtype vt); [|discriminate].
+  destruct (parse_interface itf) as [ports|] eqn:PI; [|discriminate].
+  destruct (loop _ false (false, None) rest) as [r|] eqn:L; [|discriminate].
+  inversion H; subst; cbn. split; [eapply parse_interface_ne; eauto|].
+  set (cx := mkctx libs lib cells cell (nm_ident n) ports) in *.
+  assert (Q : match snd r with Some c => Forall einst_refd (cs_insts c) | None => True end).
+  { refine (loop_inv (view_step cx) false (fun s => match snd s with Some c => Forall einst_refd (cs_insts c) | None => True end) _ rest (false, None) r _ L); [|exact I].
+    intros st kk aa st' Hs Hst. unfold view_step in Hst.
+    destruct (kweq kk "status"). { inv_res Hst; inversion Hst; subst; auto. }
+    destruct (kweq kk "contents").
+    { destruct (snd st); [discriminate|].
+      destruct (loop (contents_step cx) false (mkcst [] []) aa) as [c|] eqn:LC; [|discriminate]. inversion Hst; subst; cbn.
+      eapply contents_refd; eauto. }
+    inv_res Hst; inversion Hst; subst; auto. }
+  destruct (snd r); [exact Q|constructor].
+Qed.
+
+Lemma parse_cell_full libs lib cells args C : parse_cell libs lib cells args = Ok C -> cell_full C.
+Proof.
+  unfold parse_cell. intro H. destruct args as [|nd [|ct rest]]; try discriminate.
+  destruct (parse_elemname nd) as [n|]; [|discriminate]. destruct (chk_celltype ct); [|discriminate].
+  destruct (loop _ false (false, None) rest) as [r|] eqn:L; [|discriminate].
+  destruct (place _ _ n) as [name|]; [|discriminate]. inversion H; subst; clear H.
+  assert (Q : match snd r with
+              | Some v => Forall port_ne (snd (fst v)) /\ Forall einst_refd (cs_insts (snd v))
+              | None => True end).
+  { refine (loop_inv (cell_step libs lib cells (nm_ident n)) false
+              (fun s => match snd s with
+                        | Some v => Forall port_ne (snd (fst v)) /\ Forall einst_refd (cs_insts (snd v))
+                        | None => True end) _ rest (false, None) r _ L); [|exact I].
+    intros st kk aa st' Hs Hst. unfold cell_step in Hst.
+    destruct (kweq kk "status"). { inv_res Hst; inversion Hst; subst; auto. }
+    destruct (kweq kk "view").
+    { destruct (snd st); [discriminate|].
+      destruct (parse_view libs lib cells (nm_ident n) aa) as [v|] eqn:PV; [|discriminate]. inversion Hst; subst; cbn.
+      eapply parse_view_full; eauto. }
+    inv_res Hst; inversion Hst; subst; auto. }
+  destruct (snd r) as [v|]; unfold cell_full; cbn.
+  - destruct Q as [Q1 Q2]. split; auto. apply Forall_forall. intros I HI. apply in_map_iff in HI as (ip & <- & Hip).
+    rewrite Forall_forall in Q2. exact (Q2 ip Hip).
+  - split; constructor.
+Qed.
+
+Lemma parse_library_full libs args L : parse_library libs args = Ok L -> Forall cell_full (li_cells L).
+Proof.
+  unfold parse_library. intro H. destruct args as [|nd [|el [|tech rest]]]; try discriminate.
+  destruct (parse_elemname nd) as [n|]; [|discriminate]. destruct (chk_int_form _ _ el); [|discriminate].
+  destruct (chk_technology tech); [|discriminate].
+  destruct (loop _ false (false, []) rest) as [r|] eqn:Lp; [|discriminate].
+  destruct (place_strict _ _ n); [|discriminate]. inversion H; subst; cbn.
+  refine (loop_inv (lib_step libs (nm_ident n)) false (fun s => Forall cell_full (snd s)) _ rest (false, []) r _ Lp); [|constructor].
+  intros st kk aa st' Hs Hst. unfold lib_step in Hst.
+  destruct (kweq kk "status"). { inv_res Hst; inversion Hst; subst; auto. }
+  destruct (kweq kk "cell").
+  { destruct (parse_cell libs (nm_ident n) (snd st) aa) as [C|] eqn:PC; [|discriminate]. inversion Hst; subst; cbn.
+    apply Forall_app. split; auto. constructor; [|constructor]. eapply parse_cell_full; eauto. }
+  inv_res Hst; inversion Hst; subst; auto.
+Qed.
+
+Lemma body_full l r : body l = Ok r -> Forall (fun L => Forall cell_full (li_cells L)) (bs_libs r).
+Proof.
+  unfold body. intro H.
+  refine (loop_inv body_step false (fun s => Forall (fun L => Forall cell_full (li_cells L)) (bs_libs s)) _ l _ r _ H); [|constructor].
+  intros s k a s' Hs Hst. unfold body_step in Hst.
+  destruct (kweq k "status"). { inv_res Hst; inversion Hst; subst; auto. }
+  destruct (_ || _).
+  { destruct (parse_library (bs_libs s) a) as [L|] eqn:PL; [|discriminate]. inversion Hst; subst; cbn.
+    apply Forall_app. split; auto. constructor; [|constructor]. eapply parse_library_full; eauto. }
+  inv_res Hst; inversion Hst; subst; auto.
+Qed.
+
+Theorem elab_file_full d n : elab_file d = Ok n -> all_referenced n /\ ports_nonempty n.
+Proof.
+  unfold elab_file. intro H. destruct (negb (atoms_ascii d)); [discriminate|].
+  destruct d as [| |[|e [|nd [|ver [|lvl [|km items]]]]]]; try discriminate.
+  destruct (negb _); [discriminate|]. destruct (parse_elemname nd) as [n0|]; [|discriminate].
+  destruct (chk_int_form _ _ ver); [|discriminate]. destruct (chk_int_form _ _ lvl); [|discriminate].
+  destruct (chk_keywordmap km); [|discriminate].
+  destruct (body items) as [b|] eqn:B; [|discriminate]. inversion H; subst; cbn.
+  apply body_full in B. rewrite Forall_forall in B.
+  split.
+  - intros L C I HL HC HI. cbn in HL. specialize (B L HL). rewrite Forall_forall in B. destruct (B C HC) as [_ Hr].
+    rewrite Forall_forall in Hr. exact (Hr I HI).
+  - intros L C P HL HC HP. cbn in HL. specialize (B L HL). rewrite Forall_forall in B. destruct (B C HC) as [Hp _].
+    rewrite Forall_forall in Hp. exact (Hp P HP).
+Qed.
+
+(* every result is fully well formed: no hypothesis on the document *)
+Theorem elab_file_wf d n : elab_file d = Ok n -> wf_file n.
+Proof.
+  intro H. destruct (elab_file_full d n H) as [H1 H2]. split; [eapply elab_file_wf_core; eauto|]. split; auto.
+Qed.
+
+Theorem elab_tokens_wf toks n : elab_tokens toks = Ok n -> wf_file n.
+Proof. intro H. apply elab_tokens_file in H as (d & _ & H). eapply elab_file_wf; eauto. Qed.
+
+Theorem elab_text_wf s n : elab_text s = Ok n -> wf_file n.
+Proof. apply elab_tokens_wf. Qed.
+
+(* ---- the end of the input is strict: exactly one balanced form ---- *)
+Lemma read_open_more t : forall top stack d rest extra,
+  read_open t top stack = (d, O, rest) -> read_open (t ++ extra) top stack = (d, O, rest ++ extra).
+Proof.
+  induction t as [|tok t IH]; intros top stack d rest extra H; cbn in *.
+  - inversion H.
+  - destruct (str_eqb tok t_lp); [now apply IH|].
+    destruct (str_eqb tok t_rp); [|now apply IH].
+    destruct stack as [|next stack']; [|now apply IH]. inversion H; subst. reflexivity.
+Qed.
+
+Lemma read_open_cut t : forall top stack d k,
+  read_open t top stack = (d, O, []) -> (k < List.length t)%nat ->
+  exists d' m, read_open (firstn k t) top stack = (d', S m, []).
+Proof.
+  induction t as [|tok t IH]; intros top stack d k H Hk; cbn in *.
+  - inversion H.
+  - destruct k as [|k]; cbn; [eauto|].
+    destruct (str_eqb tok t_lp); [eapply IH; eauto; lia|].
+    destruct (str_eqb tok t_rp); [|eapply IH; eauto; lia].
+    destruct stack as [|next stack']; [|eapply IH; eauto; lia].
+    inversion H; subst. cbn in Hk. lia.
+Qed.
+
+(* tokens appended after an accepted file make the reader raise *)
+Theorem elab_tokens_trailing toks n extra : elab_tokens toks = Ok n -> extra <> [] ->
+  exists e, elab_tokens (toks ++ extra) = Err e.
+Proof.
+  intros H He. apply elab_tokens_file in H as (d & R & E).
+  unfold read_first in R. destruct toks as [|t toks]; [discriminate|].
+  destruct (str_eqb t t_lp) eqn:Et; [|discriminate]. inversion R as [R']. clear R.
+  unfold elab_tokens. cbn [app read_first]. rewrite Et, (read_open_more _ _ _ _ _ extra R'), E. cbn.
+  destruct extra; [contradiction|]. eauto.
+Qed.
+
+(* every proper prefix of an accepted file makes the reader raise *)
+Theorem elab_tokens_truncated toks n k : elab_tokens toks = Ok n -> (k < List.length toks)%nat ->
+  exists e, elab_tokens (firstn k toks) = Err e.
+Proof.
+  intros H Hk. apply elab_tokens_file in H as (d & R & E).
+  unfold read_first in R. destruct toks as [|t toks]; [discriminate|].
+  destruct (str_eqb t t_lp) eqn:Et; [|discriminate]. inversion R as [R']. clear R.
+  destruct k as [|k]; [cbn; eauto|].
+  cbn in Hk. destruct (read_open_cut toks [] [] d k R') as (d' & m & Hc); [lia|].
+  unfold elab_tokens. cbn [firstn read_first]. rewrite Et, Hc.
+  destruct (elab_file d'); cbn; eauto.
+Qed.
